@@ -228,6 +228,7 @@ fn run_case(case: &Value) -> Result<(String, bool), String> {
             }
             Ok((obs, bad))
         }
+        #[cfg(feature = "kernels")]
         "e7" => {
             let p = refmodel::params(set);
             let rho: [u8; 32] = unhex(case["rho"].as_str().unwrap()).try_into().unwrap();
